@@ -83,6 +83,14 @@ def gen_case(rng, big):
 
 def gen_ctr(rng, n):
     ops = []
+    # directed: every overflow length, counters a few increments below the wrap of the carried part
+    for ovf in range(1, 13):
+        for below in (0, 1, 2, 255, 256):
+            v = (256 ** ovf - 1 - below) if 256 ** ovf - 1 - below >= 0 else 0
+            bs = [(v >> (8 * i)) & 255 for i in range(ovf)] + [rng.randrange(256) for _ in range(12 - ovf)]
+            for times in (below, below + 1, below + 2, 1):
+                if times >= 0:
+                    ops.append("ctr %s %d %d" % ("".join("%02x" % b for b in bs), ovf, times))
     for _ in range(n):
         ovf = rng.choice([1, 2, 2, 3, 8])
         v = [rng.choice([0, 1, 254, 255, rng.randrange(256)]) for _ in range(12)]
